@@ -428,6 +428,19 @@ func CreateDB(dbName string) error {
 }
 
 func (rs *RelationService) CreateTable(r *Relation, tableName string) error {
+	if err := rs.createTable(r, tableName); err != nil {
+		return err
+	}
+
+	return rs.fs.flushPages()
+}
+
+// createTable adds the table to the catalog. it holds the statement lock so
+// that the background page flush can not run while pages are being changed.
+func (rs *RelationService) createTable(r *Relation, tableName string) error {
+	rs.StartTxn()
+	defer rs.EndTxn()
+
 	_, err := rs.getRelationFileOffset(tableName)
 	if err != ErrTableNotExist {
 		return ErrTableAlreadyExist
@@ -440,11 +453,7 @@ func (rs *RelationService) CreateTable(r *Relation, tableName string) error {
 	if err := rs.insertPageTable(pg, tableName); err != nil {
 		return err
 	}
-	if err := rs.insertSchemaTable(r, tableName); err != nil {
-		return err
-	}
-
-	return rs.fs.flushPages()
+	return rs.insertSchemaTable(r, tableName)
 }
 
 func (rs *RelationService) createPage() (*btreeNode, error) {
